@@ -328,8 +328,21 @@ def r01_5(prog, out):
         bi = prog.info(rid)
         s = sl.of(rid, 0)
         key = "remover-returns:%s" % prog.short(rid)
-        if any("::remove" in c or "pop_first" in c for c in s.calls):
+        # the value handed back has to *be* what a removal from the ack-id map yielded (`remove`, `Entry::remove`, `pop_first` ..): a
+        # removal that yields nothing (`retain`) next to a list of copies read beforehand hands back copies
+        VALUE_REMOVALS = ("remove", "remove_entry", "pop_first", "pop_last", "take", "extract_if", "drain", "split_off")
+        rsites = set()
+        for e in prog.effects(rid):
+            if e.touches(R.t_messages) and e.kind in L.REMOVE_KINDS and e.lib.split("::")[-1] in VALUE_REMOVALS:
+                rsites.add(e.leaf())
+                rsites.add((rid, e.bb))
+        if any("::remove" in c or "pop_first" in c for c in s.calls) and (rsites & set(s.sites)):
             out.holds(key, prog.loc(rid), "the removed deliveries are returned to the caller")
+        elif any("::remove" in c or "pop_first" in c or "retain" in c for c in s.calls) or rsites or any(
+                e.touches(R.t_messages) and e.kind in L.REMOVE_KINDS for e in prog.effects(rid)):
+            out.violation(key, prog.loc(rid), "what %s hands back is not what its removal from the ack-id map yielded (the entries are removed by a call that returns "
+                          "nothing, or its result is dropped, and a list of copies read beforehand is returned): a repeated ack id yields the same delivery twice, "
+                          "which the caller requeues twice -- one message leased twice at the same time" % prog.short(rid))
         else:
             out.violation(key, prog.loc(rid), "deliveries removed from the tracker are not returned: the caller cannot requeue them")
     # ... and what it hands back *is* what it removed: an element pushed to the result that is a copy of an entry merely read
